@@ -1,4 +1,5 @@
 import ErrModel.Proofs.EngineLW
+import ErrModel.Proofs.Prefix
 /-
   Transparency of the formatting engine on REGULAR text: what `StripMarkers` gives back, and
   how the write machine treats text whose newlines are interior and isolated.
@@ -691,7 +692,7 @@ theorem singleLine_eq_foldl (l : List Entry) : singleLine false l = l.reverse.fo
 
 theorem stripT_colonSpT : stripT colonSpT = colonSp := stripT_bytesT colonSp
 
-theorem foldl_slStep (m : List Entry) (hm : ∀ en ∈ m, GoodHead en) (acc : Toks) (hacc : acc = [] ∨ stripT acc ≠ []) :
+theorem foldl_slStep (m : List Entry) (hm : ∀ en ∈ m, en.elideShort = false → GoodHead en) (acc : Toks) (hacc : acc = [] ∨ stripT acc ≠ []) :
     stripT (m.foldl slStep acc) =
       (if acc = [] then txtOf m else if txtOf m = [] then stripT acc else stripT acc ++ colonSp ++ txtOf m) ∧
     (m.foldl slStep acc = [] ∨ stripT (m.foldl slStep acc) ≠ []) := by
@@ -700,8 +701,7 @@ theorem foldl_slStep (m : List Entry) (hm : ∀ en ∈ m, GoodHead en) (acc : To
     refine ⟨?_, hacc⟩
     by_cases ha : acc = [] <;> simp [txtOf, ha]
   | cons en r ih =>
-    have hr : ∀ e ∈ r, GoodHead e := fun e he => hm e (by simp [he])
-    have hen := hm en (by simp)
+    have hr : ∀ e ∈ r, e.elideShort = false → GoodHead e := fun e he => hm e (by simp [he])
     simp only [List.foldl_cons]
     by_cases hel : en.elideShort = true
     · have h1 : slStep acc en = acc := by simp [slStep, hel]
@@ -710,6 +710,7 @@ theorem foldl_slStep (m : List Entry) (hm : ∀ en ∈ m, GoodHead en) (acc : To
       refine ⟨?_, i2⟩
       rw [i1]; simp [txtOf, hel]
     · have hel' : en.elideShort = false := by simpa using hel
+      have hen := hm en (by simp) hel'
       by_cases hh : en.head = []
       · have h1 : slStep acc en = acc := by simp [slStep, hel', hh]
         rw [h1]
@@ -741,7 +742,7 @@ theorem foldl_slStep (m : List Entry) (hm : ∀ en ∈ m, GoodHead en) (acc : To
           split <;> simp [List.append_assoc]
 
 /-- the stripped one-line rendering (plain mode) of a list of entries -/
-theorem stripT_singleLine (l : List Entry) (hl : ∀ en ∈ l, GoodHead en) :
+theorem stripT_singleLine (l : List Entry) (hl : ∀ en ∈ l, en.elideShort = false → GoodHead en) :
     stripT (singleLine false l) = txtOf l.reverse := by
   rw [singleLine_eq_foldl]
   have := (foldl_slStep l.reverse (fun en hen => hl en (by simpa using hen)) [] (Or.inl rfl)).1
@@ -771,5 +772,329 @@ theorem txtOf_snoc (sub : List Entry) (en : Entry) :
       (if en.elideShort = true ∨ en.head = [] then txtOf sub.reverse
        else stripT en.head ++ (if txtOf sub.reverse = [] then [] else colonSp ++ txtOf sub.reverse)) := by
   simp [List.reverse_append, txtOf]
+
+end ErrModel
+
+namespace ErrModel
+
+/-! ### entries of single-operation scripts in plain one-line mode -/
+
+theorem runOps_single (detail : Bool) (op : POp) : runOps detail [op] = runOp { wantDetail := detail } op := rfl
+theorem runOps_nil (detail : Bool) : runOps detail [] = { wantDetail := detail } := rfl
+
+structure EntryIs (en : Entry) (txt : Str) : Prop where
+  head : stripT en.head = txt
+  noElide : en.elideShort = false
+
+theorem EntryIs.good {en : Entry} {txt : Str} (h : EntryIs en txt) (hne : txt ≠ []) : GoodHead en :=
+  Or.inr (by rw [h.head]; exact hne)
+
+theorem entry_safe (segs : List SegT) (hs : ∀ g ∈ segs, g.ascii) (hr : Reg (segs.flatMap SegT.content))
+    (b wd : Bool) (d : Nat) (t : Str) :
+    EntryIs (collect (runOps false [.safe segs]) b false wd d t) (segs.flatMap SegT.content) := by
+  obtain ⟨h1, _⟩ := stripT_assembleT_ascii segs hs
+  have hr' : Reg (stripT (assembleT segs)) := by rw [h1]; exact hr
+  obtain ⟨w1, w2, w3⟩ := write_fresh (assembleT segs) hr'
+  rw [runOps_single]
+  show EntryIs (collect (({ wantDetail := false } : LState).write (assembleT segs)) b false wd d t) _
+  obtain ⟨c1, c2⟩ := collect_plain_head _ b wd d t w3 w2
+  exact ⟨by rw [c1, w1, h1], c2⟩
+
+theorem entry_plain (s : Str) (hr : Reg s) (b wd : Bool) (d : Nat) (t : Str) :
+    EntryIs (collect (runOps false [.plain s]) b false wd d t) s := by
+  have hr' : Reg (stripT (bytesU s)) := by rw [stripT_bytesU]; exact hr
+  obtain ⟨w1, w2, w3⟩ := write_fresh (bytesU s) hr'
+  rw [runOps_single]
+  show EntryIs (collect (({ wantDetail := false } : LState).write (bytesU s)) b false wd d t) _
+  obtain ⟨c1, c2⟩ := collect_plain_head _ b wd d t w3 w2
+  exact ⟨by rw [c1, w1, stripT_bytesU], c2⟩
+
+theorem entry_none (b wd : Bool) (d : Nat) (t : Str) :
+    (collect (runOps false []) b false wd d t).head = [] ∧ (collect (runOps false []) b false wd d t).elideShort = false := by
+  rw [runOps_nil]
+  unfold collect
+  cases b <;> simp [stripT, stripToks, bytesT]
+
+theorem withStackOf_head (en : Entry) (ls : Stack) (st : Option Stack) :
+    (withStackOf en ls st).1.head = en.head ∧ (withStackOf en ls st).1.elideShort = en.elideShort := by
+  unfold withStackOf; split <;> exact ⟨rfl, rfl⟩
+
+/-- a stored redactable string (message, prefix): ASCII, well-formed, regular once stripped -/
+structure RegR (p : Str) : Prop where
+  ascii : AllAsciiT (lexL p)
+  lw : LW (lexL p)
+  reg : Reg (stripMarkers p)
+
+theorem RegR.seg {p : Str} (h : RegR p) : ∀ g ∈ [SegT.pre p], g.ascii := by
+  intro g hg; simp at hg; subst hg; exact ⟨h.ascii, h.lw⟩
+
+/-- the leaves whose text must be regular for `%v = Error()` -/
+def LeafKind.regular (k : LeafKind) : Prop :=
+  Reg (leafText k) ∧ (match k with | .leafError msg => RegR msg | _ => True)
+
+theorem ents_leaf_special (id : Ident) (k : LeafKind) (hreg : Reg (leafText k)) (wd : Bool) (d : Nat) :
+    EntryIs (collect (runOps false [.safe [.lit (leafText k)]]) true false wd d (Err.leaf id k).ty.tstr) (leafText k) := by
+  have := entry_safe [.lit (leafText k)] (by intro g hg; simp at hg; subst hg; exact hreg.ascii) (by simpa [SegT.content] using hreg) true wd d (Err.leaf id k).ty.tstr
+  simpa [SegT.content] using this
+
+theorem ents_leaf_default (id : Ident) (k : LeafKind) (hreg : Reg (leafText k)) (wd : Bool) (d : Nat) :
+    EntryIs (collect (runOps false (if leafText k ≠ [] then [.plain (leafText k)] else [])) false false wd d (Err.leaf id k).ty.tstr) (leafText k) := by
+  have hne : leafText k ≠ [] := hreg.ne
+  simp only [hne, ne_eq, not_false_eq_true, if_true]
+  exact entry_plain (leafText k) hreg false wd d (Err.leaf id k).ty.tstr
+
+theorem ents_leaf_text (id : Ident) (k : LeafKind) (hk : k.regular) (o wd : Bool) (d : Nat) (ls : Stack) :
+    ∃ en, (ents false false (.leaf id k) o wd d ls).1 = [en] ∧ EntryIs en (leafText k) := by
+  obtain ⟨hreg, hk2⟩ := hk
+  have hasc : Ascii (leafText k) := hreg.ascii
+  cases k with
+  | leafError msg =>
+    unfold ents; simp only [leafScript]
+    have := entry_safe [.pre msg] (RegR.seg hk2) (by simpa [SegT.content, leafText] using hk2.reg) true wd d (Err.leaf id (.leafError msg)).ty.tstr
+    exact ⟨_, rfl, by simpa [SegT.content, leafText] using this⟩
+  | unimplemented msg url dt =>
+    unfold ents; simp only [leafScript, Bool.false_eq_true, if_false, List.append_nil]
+    have := entry_safe [.arg msg] (by intro g hg; simp at hg; subst hg; exact hasc) (by simpa [SegT.content, leafText] using hreg) true wd d (Err.leaf id (.unimplemented msg url dt)).ty.tstr
+    exact ⟨_, rfl, by simpa [SegT.content, leafText] using this⟩
+  | opaqueLeaf msg dd hid =>
+    unfold ents; simp only [leafScript, Bool.false_eq_true, if_false, List.append_nil]
+    have := entry_safe [.arg msg] (by intro g hg; simp at hg; subst hg; exact hasc) (by simpa [SegT.content, leafText] using hreg) true wd d (Err.leaf id (.opaqueLeaf msg dd hid)).ty.tstr
+    exact ⟨_, rfl, by simpa [SegT.content, leafText] using this⟩
+  | pkgFundamental msg st =>
+    unfold ents; simp only [leafScript, Bool.false_eq_true, if_false]
+    have hp := entry_plain msg (by simpa [leafText] using hreg) false wd d (Err.leaf id (.pkgFundamental msg st)).ty.tstr
+    split
+    · exact ⟨_, rfl, by simpa [leafText] using hp⟩
+    · obtain ⟨w1, w2⟩ := withStackOf_head (collect (runOps false [.plain msg]) false false wd d (Err.leaf id (.pkgFundamental msg st)).ty.tstr) ls (some st)
+      exact ⟨_, rfl, ⟨by rw [w1]; simpa [leafText] using hp.head, by rw [w2]; exact hp.noElide⟩⟩
+  | errno n msg a b c dd e =>
+    unfold ents; simp only [leafScript]
+    split
+    · exact ⟨_, rfl, ents_leaf_special id _ hreg wd d⟩
+    · have := entry_safe [.lit msg] (by intro g hg; simp at hg; subst hg; exact (by simpa [leafText] using hasc : Ascii msg)) (by simpa [SegT.content, leafText] using hreg) true wd d (Err.leaf id (.errno n msg a b c dd e)).ty.tstr
+      exact ⟨_, rfl, by simpa [SegT.content, leafText] using this⟩
+  | errorString m =>
+    unfold ents; simp only [leafScript]
+    split
+    · exact ⟨_, rfl, ents_leaf_special id _ hreg wd d⟩
+    · exact ⟨_, rfl, ents_leaf_default id _ hreg wd d⟩
+  | deadline =>
+    unfold ents; simp only [leafScript]
+    split
+    · exact ⟨_, rfl, ents_leaf_special id _ hreg wd d⟩
+    · exact ⟨_, rfl, ents_leaf_default id _ hreg wd d⟩
+  | opaqueErrno m n ar a b c dd e =>
+    unfold ents; simp only [leafScript]
+    split
+    · exact ⟨_, rfl, ents_leaf_special id _ hreg wd d⟩
+    · exact ⟨_, rfl, ents_leaf_default id _ hreg wd d⟩
+  | testErr =>
+    unfold ents; simp only [leafScript]
+    split
+    · exact ⟨_, rfl, ents_leaf_special id _ hreg wd d⟩
+    · exact ⟨_, rfl, ents_leaf_default id _ hreg wd d⟩
+  | grpcStatus c m n =>
+    unfold ents; simp only [leafScript]
+    split
+    · exact ⟨_, rfl, ents_leaf_special id _ hreg wd d⟩
+    · exact ⟨_, rfl, ents_leaf_default id _ hreg wd d⟩
+  | gogoStatus c m n =>
+    unfold ents; simp only [leafScript]
+    split
+    · exact ⟨_, rfl, ents_leaf_special id _ hreg wd d⟩
+    · exact ⟨_, rfl, ents_leaf_default id _ hreg wd d⟩
+  | user u m =>
+    unfold ents; simp only [leafScript]
+    split
+    · exact ⟨_, rfl, ents_leaf_special id _ hreg wd d⟩
+    · exact ⟨_, rfl, ents_leaf_default id _ hreg wd d⟩
+
+end ErrModel
+
+namespace ErrModel
+
+/-! ### wrappers -/
+
+/-- the wrapper kinds that print nothing of their own in one-line mode -/
+def WrapKind.annotation : WrapKind → Bool
+  | .withStack _ | .withHint _ | .withDetail _ | .withIssueLink .. | .withTelemetry _ | .withDomain _
+  | .withContext .. | .withAssertionFailure | .withSafeDetails _ | .withMark .. | .withHTTPCode _ | .withGrpcCode _ => true
+  | _ => false
+
+/-- the wrapper kinds printed by formatSimple (prefix extracted from the two Error() texts) -/
+def WrapKind.simple : WrapKind → Bool
+  | .pkgWithMessage _ | .pkgWithStack _ | .fmtWrapError _ | .user .. => true
+  | _ => false
+
+/-- what must be regular in a wrapper, given the text `ct` of its cause -/
+def WrapKind.regular (k : WrapKind) (ct : Str) : Prop :=
+  match k with
+  | .withPrefix p => p = [] ∨ RegR p
+  | .withNewMessage m => RegR m
+  | .opaqueWrapper p _ mt _ => if mt = mtFull then Reg p else (p = [] ∨ Reg p)
+  | .pathError op path => Reg (op ++ sp ++ path) ∧ Ascii op ∧ Ascii path
+  | .linkError op old new => Reg (op ++ sp ++ old ++ sp ++ new) ∧ Ascii op ∧ Ascii old ∧ Ascii new
+  | .syscallError scn => Reg scn
+  | .pkgWithMessage _ | .pkgWithStack _ | .fmtWrapError _ | .user .. =>
+    wrapText k ct ≠ colonSp ++ ct ∧ wrapText k ct ≠ [] ∧
+      ((extractPrefix (wrapText k ct) ct).1 = [] ∨ Reg (extractPrefix (wrapText k ct) ct).1)
+  | _ => True
+
+/-- the entry of a wrapper layer in plain one-line mode: (text of its head, does it hide the causes) -/
+structure WrapEntry (k : WrapKind) (ct : Str) (en : Entry) (elide : Bool) : Prop where
+  noElide : en.elideShort = false
+  good : GoodHead en
+  vis : en.head = [] → elide = false
+  txt : (if en.head = [] then (if elide then [] else ct)
+         else stripT en.head ++ (if elide ∨ ct = [] then [] else colonSp ++ ct)) = wrapText k ct
+
+theorem sp_ascii : Ascii sp := by intro c hc; simp [sp] at hc; subst hc; decide
+
+/-- formatSimple: the prefix extracted from the two Error() texts, printed before the cause (or
+    instead of it), reassembles the wrapper's own Error() text -/
+theorem simple_entry (k : WrapKind) (ct : Str) (hct : ct ≠ [])
+    (h1 : wrapText k ct ≠ colonSp ++ ct) (h2 : wrapText k ct ≠ [])
+    (h3 : (extractPrefix (wrapText k ct) ct).1 = [] ∨ Reg (extractPrefix (wrapText k ct) ct).1) (wd : Bool) (d : Nat) (t : Str) :
+    WrapEntry k ct (collect (runOps false (simpleWrapOps (wrapText k ct) ct).1) false false wd d t)
+      (simpleWrapOps (wrapText k ct) ct).2 := by
+  have hre := extract_reassemble (wrapText k ct) ct h1
+  unfold simpleWrapOps
+  simp only []
+  rcases h3 with hp | hp
+  · simp only [hp, ne_eq, not_true_eq_false, if_false]
+    obtain ⟨e1, e2⟩ := entry_none false wd d t
+    rw [hp] at hre
+    simp only [opaqueText] at hre
+    have hnf : (extractPrefix (wrapText k ct) ct).2 ≠ mtFull := by
+      intro hm; simp [hm] at hre; exact h2 hre
+    refine ⟨e2, Or.inl e1, fun _ => by simp [hnf], ?_⟩
+    simp only [e1, if_true]
+    simp [hnf] at hre ⊢; exact hre
+  · have hne : (extractPrefix (wrapText k ct) ct).1 ≠ [] := hp.ne
+    simp only [hne, ne_eq, not_false_eq_true, if_true]
+    have he := entry_plain _ hp false wd d t
+    have hh : (collect (runOps false [.plain (extractPrefix (wrapText k ct) ct).1]) false false wd d t).head ≠ [] := by
+      intro h0; have := he.head; rw [h0] at this; simp at this; exact hne this
+    refine ⟨he.noElide, he.good hne, fun h0 => absurd h0 hh, ?_⟩
+    simp only [hh, if_false, he.head]
+    simp only [opaqueText, hne, if_false] at hre
+    by_cases hm : (extractPrefix (wrapText k ct) ct).2 = mtFull
+    · simp [hm] at hre ⊢; exact hre
+    · simp [hm, hct, pfx] at hre ⊢; exact hre
+
+theorem wrapOpsOf_entry (k : WrapKind) (ct : Str) (hct : ct ≠ []) (hk : k.regular ct) (wd : Bool) (d : Nat) (t : Str) :
+    WrapEntry k ct (collect (runOps false (wrapOpsOf k false ct).1) (wrapOpsOf k false ct).2.2 false wd d t)
+      (wrapOpsOf k false ct).2.1 := by
+  have none_case : ∀ (b : Bool), (wrapOpsOf k false ct).1 = [] → (wrapOpsOf k false ct).2.1 = false → wrapText k ct = ct →
+      (wrapOpsOf k false ct).2.2 = b →
+      WrapEntry k ct (collect (runOps false (wrapOpsOf k false ct).1) (wrapOpsOf k false ct).2.2 false wd d t) (wrapOpsOf k false ct).2.1 := by
+    intro b h1 h2 h3 h4
+    rw [h1, h2]
+    obtain ⟨e1, e2⟩ := entry_none (wrapOpsOf k false ct).2.2 wd d t
+    exact ⟨e2, Or.inl e1, fun _ => rfl, by simp [e1, h3]⟩
+  cases k with
+  | withStack st => exact none_case true rfl rfl rfl rfl
+  | withHint h => exact none_case false rfl rfl rfl rfl
+  | withDetail h => exact none_case false rfl rfl rfl rfl
+  | withIssueLink u dd => exact none_case true rfl rfl rfl rfl
+  | withTelemetry ks => exact none_case true rfl rfl rfl rfl
+  | withDomain dd => exact none_case true rfl rfl rfl rfl
+  | withContext tg ks r => exact none_case true rfl rfl rfl rfl
+  | withAssertionFailure => exact none_case true rfl rfl rfl rfl
+  | withSafeDetails l => exact none_case true rfl rfl rfl rfl
+  | withMark m tys => exact none_case true rfl rfl rfl rfl
+  | withHTTPCode n => exact none_case true rfl rfl rfl rfl
+  | withGrpcCode n => exact none_case true rfl rfl rfl rfl
+  | withPrefix p =>
+    rcases hk with hp | hp
+    · subst hp
+      -- an empty prefix: Sprintf of an empty redactable string is empty, nothing is written
+      have hw : (wrapOpsOf (.withPrefix []) false ct) = ([.safe [.pre []]], false, true) := rfl
+      rw [hw]
+      have hasm : assembleT [.pre []] = [] := by
+        simp [assembleT, RBT.seg, RBT.setMode, RBT.reset, RBT.escapeToEnd, escLoopT, lastRuneInvalid, unlex, RBT.write, lexL, lex, relabel, RBT.finalize]
+      have : runOps false [.safe [.pre []]] = { wantDetail := false } := by
+        rw [runOps_single]; simp [runOp, hasm, LState.write]
+      rw [this]
+      obtain ⟨e1, e2⟩ := entry_none true wd d t
+      rw [runOps_nil] at e1 e2
+      exact ⟨e2, Or.inl e1, fun _ => rfl, by simp [e1, wrapText]⟩
+    · have hw : (wrapOpsOf (.withPrefix p) false ct) = ([.safe [.pre p]], false, true) := rfl
+      rw [hw]
+      have he := entry_safe [.pre p] (RegR.seg hp) (by simpa [SegT.content] using hp.reg) true wd d t
+      have hne : stripMarkers p ≠ [] := hp.reg.ne
+      have hh : (collect (runOps false [.safe [.pre p]]) true false wd d t).head ≠ [] := by
+        intro h0; have := he.head; rw [h0] at this; simp [SegT.content] at this; exact hne this
+      refine ⟨he.noElide, he.good (by simpa [SegT.content] using hne), fun h0 => absurd h0 hh, ?_⟩
+      have hpne : p ≠ [] := by intro h0; subst h0; simp [stripMarkers, lex, stripToks] at hne
+      simp [hh, he.head, SegT.content, wrapText, hpne, hct, pfx]
+  | withNewMessage m =>
+    have hw : (wrapOpsOf (.withNewMessage m) false ct) = ([.safe [.pre m]], true, true) := rfl
+    rw [hw]
+    have he := entry_safe [.pre m] (RegR.seg hk) (by simpa [SegT.content] using hk.reg) true wd d t
+    have hne : stripMarkers m ≠ [] := hk.reg.ne
+    have hh : (collect (runOps false [.safe [.pre m]]) true false wd d t).head ≠ [] := by
+      intro h0; have := he.head; rw [h0] at this; simp [SegT.content] at this; exact hne this
+    exact ⟨he.noElide, he.good (by simpa [SegT.content] using hne), fun h0 => absurd h0 hh, by simp [hh, he.head, SegT.content, wrapText]⟩
+  | opaqueWrapper p dd mt hid =>
+    by_cases hp : p = []
+    · subst hp
+      have hw : (wrapOpsOf (.opaqueWrapper [] dd mt hid) false ct) = ([], decide (mt = mtFull), true) := by
+        simp [wrapOpsOf, wrapScript]
+      rw [hw]
+      obtain ⟨e1, e2⟩ := entry_none true wd d t
+      by_cases hm : mt = mtFull
+      · simp [WrapKind.regular, hm] at hk; exact absurd rfl hk.ne
+      · exact ⟨e2, Or.inl e1, fun _ => by simp [hm], by simp [e1, wrapText, hm]⟩
+    · have hw : (wrapOpsOf (.opaqueWrapper p dd mt hid) false ct) = ([.safe [.arg p]], decide (mt = mtFull), true) := by
+        simp [wrapOpsOf, wrapScript, hp]
+      rw [hw]
+      have hreg : Reg p := by
+        by_cases hm : mt = mtFull
+        · simpa [WrapKind.regular, hm] using hk
+        · have := hk; simp only [WrapKind.regular, hm, if_false] at this; rcases this with h | h; exact absurd h hp; exact h
+      have he := entry_safe [.arg p] (by intro g hg; simp at hg; subst hg; exact hreg.ascii) (by simpa [SegT.content] using hreg) true wd d t
+      have hh : (collect (runOps false [.safe [.arg p]]) true false wd d t).head ≠ [] := by
+        intro h0; have := he.head; rw [h0] at this; simp [SegT.content] at this; exact hp this
+      refine ⟨he.noElide, he.good (by simpa [SegT.content] using hp), fun h0 => absurd h0 hh, ?_⟩
+      by_cases hm : mt = mtFull <;> simp [hh, he.head, SegT.content, wrapText, hm, hp, hct, pfx]
+  | pathError op path =>
+    obtain ⟨hr, ho, hpa⟩ := hk
+    have hw : (wrapOpsOf (.pathError op path) false ct) = ([.safe [.lit op, .lit sp, .arg path]], false, true) := rfl
+    rw [hw]
+    have he := entry_safe [.lit op, .lit sp, .arg path]
+      (by intro g hg; simp at hg; rcases hg with rfl | rfl | rfl; exact ho; exact sp_ascii; exact hpa)
+      (by simpa [SegT.content, List.append_assoc] using hr) true wd d t
+    have hne : op ++ sp ++ path ≠ [] := hr.ne
+    have hh : (collect (runOps false [.safe [.lit op, .lit sp, .arg path]]) true false wd d t).head ≠ [] := by
+      intro h0; have := he.head; rw [h0] at this; simp [SegT.content] at this; exact hne (by simp [this.1, this.2.1, this.2.2])
+    refine ⟨he.noElide, he.good (by simpa [SegT.content, List.append_assoc] using hne), fun h0 => absurd h0 hh, ?_⟩
+    simp [hh, he.head, SegT.content, wrapText, hct, pfx, List.append_assoc]
+  | linkError op old new =>
+    obtain ⟨hr, ho, hol, hnw⟩ := hk
+    have hw : (wrapOpsOf (.linkError op old new) false ct) = ([.safe [.lit op, .lit sp, .arg old, .lit sp, .arg new]], false, true) := rfl
+    rw [hw]
+    have he := entry_safe [.lit op, .lit sp, .arg old, .lit sp, .arg new]
+      (by intro g hg; simp at hg; rcases hg with rfl | rfl | rfl | rfl | rfl; exact ho; exact sp_ascii; exact hol; exact sp_ascii; exact hnw)
+      (by simpa [SegT.content, List.append_assoc] using hr) true wd d t
+    have hne : op ++ sp ++ old ++ sp ++ new ≠ [] := hr.ne
+    have hh : (collect (runOps false [.safe [.lit op, .lit sp, .arg old, .lit sp, .arg new]]) true false wd d t).head ≠ [] := by
+      intro h0; have := he.head; rw [h0] at this; simp [SegT.content, sp] at this
+    refine ⟨he.noElide, he.good (by simpa [SegT.content, List.append_assoc] using hne), fun h0 => absurd h0 hh, ?_⟩
+    simp [hh, he.head, SegT.content, wrapText, hct, pfx, List.append_assoc]
+  | syscallError scn =>
+    have hw : (wrapOpsOf (.syscallError scn) false ct) = ([.safe [.lit scn]], false, true) := rfl
+    rw [hw]
+    have hk : Reg scn := hk
+    have he := entry_safe [.lit scn] (by intro g hg; simp at hg; subst hg; exact hk.ascii) (by simpa [SegT.content] using hk) true wd d t
+    have hne : scn ≠ [] := hk.ne
+    have hh : (collect (runOps false [.safe [.lit scn]]) true false wd d t).head ≠ [] := by
+      intro h0; have := he.head; rw [h0] at this; simp [SegT.content] at this; exact hne this
+    refine ⟨he.noElide, he.good (by simpa [SegT.content] using hne), fun h0 => absurd h0 hh, ?_⟩
+    simp [hh, he.head, SegT.content, wrapText, hct, pfx]
+  | pkgWithMessage m => exact simple_entry _ ct hct hk.1 hk.2.1 hk.2.2 wd d t
+  | pkgWithStack st => exact simple_entry _ ct hct hk.1 hk.2.1 hk.2.2 wd d t
+  | fmtWrapError m => exact simple_entry _ ct hct hk.1 hk.2.1 hk.2.2 wd d t
+  | user u msg => exact simple_entry _ ct hct hk.1 hk.2.1 hk.2.2 wd d t
 
 end ErrModel
